@@ -4,17 +4,21 @@ set_option maxRecDepth 8192
 namespace Agd.Tie.C10
 open Agd.Gen.C10
 
-/-- Order of the early exits of the handler: spoofed port, access, device result, and only then the ECS error. -/
-def wrap_if_conds_expected : String := "raddr.Port() == 0 | mw.isBlockedByAccess(ctx, ri, req, raddr) | !cont | locErr != nil"
+/-- Order of the early exits of the handler: spoofed port, global access (over the request and the client address alone), profile access, device result, and only then the ECS error. -/
+def wrap_if_conds_expected : String := "raddr.Port() == 0 | mw.isBlockedGlobally(ctx, req, remoteIP) | mw.isBlockedByProfile(ctx, ri, req, raddr) | !cont | locErr != nil"
 theorem wrap_if_conds_src : wrap_if_conds = wrap_if_conds_expected := by decide
 
 /-- A blocked request returns `nil` before the device finder's error is returned (`serveDeviceErr`), before `serveLocationErr` (FORMERR; both go through the rate limiter since the C09 repair) and before `serveWithRatelimiting` (the next stage). -/
-def wrap_returns_expected : String := "nil | nil | mw.serveDeviceErr(ctx, rw, req, ri, err) | mw.serveLocationErr(ctx, rw, req, ri, locErr) | mw.serveWithRatelimiting(ctx, rw, req, ri, next) | dnsserver.HandlerFunc(f)"
+def wrap_returns_expected : String := "nil | nil | nil | mw.serveDeviceErr(ctx, rw, req, ri, err) | mw.serveLocationErr(ctx, rw, req, ri, locErr) | mw.serveWithRatelimiting(ctx, rw, req, ri, next) | dnsserver.HandlerFunc(f)"
 theorem wrap_returns_src : wrap_returns = wrap_returns_expected := by decide
 
-/-- Source order of the calls: the access check precedes the handling of the device result, the two error paths, `ContextWithRequestInfo` and the next stage. -/
-def wrap_ctx_calls_expected : String := "location,newRequestInfo,isBlockedByAccess,handleDeviceResult,serveDeviceErr,serveLocationErr,ContextWithRequestInfo,serveWithRatelimiting"
+/-- Source order of the calls: the global access check precedes the location and the device lookup (fifth deepening), the profile check precedes the handling of the device result, the two error paths, `ContextWithRequestInfo` and the next stage. -/
+def wrap_ctx_calls_expected : String := "isBlockedGlobally,location,newRequestInfo,isBlockedByProfile,handleDeviceResult,serveDeviceErr,serveLocationErr,ContextWithRequestInfo,serveWithRatelimiting"
 theorem wrap_ctx_calls_src : wrap_ctx_calls = wrap_ctx_calls_expected := by decide
+
+/-- The address the global check sees is the peer's address as the transport reports it. -/
+def wrap_remote_ip_expected : String := "raddr.Addr()"
+theorem wrap_remote_ip_src : wrap_remote_ip = wrap_remote_ip_expected := by decide
 
 /-- Only the unknown-dedicated and error results stop the handler. -/
 def device_cases_expected : String := "*agd.DeviceResultUnknownDedicated | *agd.DeviceResultError"
@@ -24,17 +28,29 @@ theorem device_cases_src : device_cases = device_cases_expected := by decide
 def device_returns_expected : String := "false, nil | false, res.Err | true, nil"
 theorem device_returns_src : device_returns = device_returns_expected := by decide
 
-/-- `isBlockedByAccess`: global address, global name, missing profile, profile. -/
-def access_if_conds_expected : String := "mw.accessManager.IsBlockedIP(raddr.Addr()) | mw.accessManager.IsBlockedHost(host, ri.QType) | p == nil | p.Access.IsBlocked(req, raddr, ri.Location)"
+/-- `isBlockedGlobally`: global address, global name — over the client address and the question of the request itself. -/
+def access_if_conds_expected : String := "mw.accessManager.IsBlockedIP(remoteIP) | mw.accessManager.IsBlockedHost(host, q.Qtype)"
 theorem access_if_conds_src : access_if_conds = access_if_conds_expected := by decide
 
 /-- … with these verdicts. -/
-def access_returns_expected : String := "true | true | false | true | false"
+def access_returns_expected : String := "true | true | false"
 theorem access_returns_src : access_returns = access_returns_expected := by decide
 
 /-- The global name check sees `NormalizeQueryDomain` of the question name (root stays "."). -/
-def access_host_expected : String := "agdnet.NormalizeQueryDomain(req.Question[0].Name)"
+def access_host_expected : String := "agdnet.NormalizeQueryDomain(q.Name)"
 theorem access_host_src : access_host = access_host_expected := by decide
+
+/-- … of the first (only) question. -/
+def access_question_expected : String := "req.Question[0]"
+theorem access_question_src : access_question = access_question_expected := by decide
+
+/-- `isBlockedByProfile`: missing profile, the profile's settings. -/
+def access_prof_if_conds_expected : String := "p == nil | p.Access.IsBlocked(req, raddr, ri.Location)"
+theorem access_prof_if_conds_src : access_prof_if_conds = access_prof_if_conds_expected := by decide
+
+/-- … with these verdicts. -/
+def access_prof_returns_expected : String := "false | true | false"
+theorem access_prof_returns_src : access_prof_returns = access_prof_returns_expected := by decide
 
 /-- Only `DeviceResultOK` yields a profile. -/
 def device_data_returns_expected : String := "r.Profile, r.Device | nil, nil"
